@@ -521,8 +521,9 @@ func ru5bMergedReportOwnsArray(w *World) {
 // t.h.Error(). The executor's shared handler e.h turns erroneous as soon as *any* file reports an
 // error, at a moment that depends on the schedule — a task that consults it (t.e.h) after its own
 // work fails or succeeds depending on how far an unrelated file has got, so the per-file results
-// of one Compile differ between runs and with the parallelism. No method of task may read the
-// executor's handler field.
+// of one Compile differ between runs and with the parallelism. A method of task may report to the
+// executor's handler (as the executor's own cycle check does) but may ask it for its verdict
+// (Error()) only where, on every path, it has just reported to it; any other read is reported.
 func rc5bTaskUsesOwnHandler(w *World) {
 	w.rule("RC5b")
 	p := w.pkg("")
@@ -547,6 +548,47 @@ func rc5bTaskUsesOwnHandler(w *World) {
 			if n, ok := rt.(*types.Named); !ok || n.Origin() != taskT.Origin() {
 				continue
 			}
+			parents := parentMap(fd)
+			// reporting to the shared handler (passing it to a reporting function, or calling one of
+			// its Handle* methods) is what the executor's own cycle check does; what a task must not
+			// do is ask the shared handler for its verdict — Error() — unless, on every path to that
+			// call, this function has just reported to the same handler (it returns the error it
+			// reported, like checkForDependencyCycle)
+			isSharedRead := func(x ast.Node) *ast.SelectorExpr {
+				sel, ok := x.(*ast.SelectorExpr)
+				if ok && selField(info, sel) == eh {
+					return sel
+				}
+				return nil
+			}
+			isReport := func(x ast.Node) bool {
+				c, ok := x.(*ast.CallExpr)
+				if !ok {
+					return false
+				}
+				for _, a := range c.Args {
+					if isSharedRead(ast.Unparen(a)) != nil {
+						return true
+					}
+				}
+				if ms, ok := ast.Unparen(c.Fun).(*ast.SelectorExpr); ok && isSharedRead(ast.Unparen(ms.X)) != nil && strings.HasPrefix(ms.Sel.Name, "Handle") {
+					return true
+				}
+				return false
+			}
+			isVerdict := func(x ast.Node) bool {
+				c, ok := x.(*ast.CallExpr)
+				if !ok {
+					return false
+				}
+				ms, ok := ast.Unparen(c.Fun).(*ast.SelectorExpr)
+				return ok && ms.Sel.Name == "Error" && isSharedRead(ast.Unparen(ms.X)) != nil
+			}
+			_, unreported := mustPrecede(info, fd.Body, isReport, isVerdict)
+			badVerdict := map[ast.Node]bool{}
+			for _, b := range unreported {
+				badVerdict[b] = true
+			}
 			ast.Inspect(fd.Body, func(x ast.Node) bool {
 				sel, ok := x.(*ast.SelectorExpr)
 				if !ok {
@@ -556,8 +598,22 @@ func rc5bTaskUsesOwnHandler(w *World) {
 				case th:
 					nOwn++
 				case eh:
-					bad++
-					w.violation("task-own-handler|"+fd.Name.Name, sel.Pos(), "task."+fd.Name.Name+" reads the executor's shared handler ("+render(sel)+"): whether it has seen an error depends on how far other files have got, so this file's result depends on the schedule; the task's verdict is its own sub-handler's (t.h)")
+					// classify the use
+					var call *ast.CallExpr
+					if ms, ok := parents[sel].(*ast.SelectorExpr); ok && ms.X == ast.Expr(sel) {
+						call, _ = parents[ms].(*ast.CallExpr)
+					} else if c, ok := parents[sel].(*ast.CallExpr); ok {
+						call = c
+					}
+					switch {
+					case call != nil && isVerdict(call) && !badVerdict[call]:
+						// returns the error it has just reported to the shared handler
+					case call != nil && isReport(call):
+						// a report to the shared handler
+					default:
+						bad++
+						w.violation("task-own-handler|"+fd.Name.Name, sel.Pos(), "task."+fd.Name.Name+" reads the executor's shared handler ("+render(sel)+"): whether it has seen an error depends on how far other files have got, so this file's result depends on the schedule; the task's verdict is its own sub-handler's (t.h)")
+					}
 				}
 				return true
 			})
@@ -565,6 +621,6 @@ func rc5bTaskUsesOwnHandler(w *World) {
 	}
 	w.floor("uses of the task's own handler in task methods", nOwn, 6)
 	if bad == 0 {
-		w.ok("task-own-handler", taskT.Obj().Pos(), "no method of task reads executor.h; every handler use goes through the task's sub-handler")
+		w.ok("task-own-handler", taskT.Obj().Pos(), "no method of task takes its verdict from executor.h (reports to it aside); every verdict goes through the task's sub-handler")
 	}
 }
